@@ -1000,6 +1000,15 @@ func compatRecord(rng *rand.Rand, s avro.Schema, top bool) (*GT, bool) {
 	for i, f := range fs {
 		g.Fields = append(g.Fields, GF{Name: "F" + strconv.Itoa(i), Exported: true, JSON: f.json, T: f.t})
 	}
+	// sometimes a field the codec must ignore (json:"-") sits among the others, often in front
+	if !compatPlain && rng.Intn(4) == 0 {
+		at := 0
+		if len(g.Fields) > 0 && rng.Intn(2) == 0 {
+			at = rng.Intn(len(g.Fields) + 1)
+		}
+		ig := GF{Name: "Ign", Exported: true, JSON: "-", T: mkGT(basicTargetKinds[rng.Intn(len(basicTargetKinds))])}
+		g.Fields = append(g.Fields[:at:at], append([]GF{ig}, g.Fields[at:]...)...)
+	}
 	if emb != nil {
 		at := len(g.Fields)
 		if at > 1 {
